@@ -87,9 +87,12 @@ func (w *world) onDelivered(id string) {
 	}
 }
 
-type finding struct{ Sig, What string }
+type finding struct {
+	Sig, What string
+	Diag      []string
+}
 
-func (w *world) add(sig, what string) { w.fs = append(w.fs, finding{sig, what}) }
+func (w *world) add(sig, what string) { w.fs = append(w.fs, finding{Sig: sig, What: what}) }
 
 func (w *world) connect(c *cl, clean bool) error {
 	conn, err := wire.Dial(c.id, w.b.Addr, c.v)
@@ -153,6 +156,26 @@ func (w *world) settle(c *cl) {
 		w.add("harness.sync", c.id+": "+err.Error())
 	}
 	_ = c.cur.Ping(step)
+	// every QoS 2 exchange the client's reader has begun (PUBREC written) is complete (PUBCOMP written) before the
+	// caller goes on - a PUBCOMP written after a DISCONNECT would be exchanged on the wire but not read by the broker
+	for i := 0; i < 400; i++ {
+		rec, comp := 0, 0
+		for _, r := range c.cur.Log() {
+			if r.Dir == "out" && r.P != nil {
+				switch r.P.Type {
+				case mqttx.PUBREC:
+					rec++
+				case mqttx.PUBCOMP:
+					comp++
+				}
+			}
+		}
+		if rec == comp {
+			break
+		}
+		time.Sleep(5 * time.Millisecond)
+		_ = c.cur.Ping(step)
+	}
 }
 
 func (w *world) gracefulDisconnect(c *cl) {
@@ -204,6 +227,11 @@ func (w *world) traffic(n int) {
 			if _, err := c.cur.Publish(&mqttx.Packet{Topic: topics[w.rng.Intn(len(topics))], QoS: q, Payload: pl, Retain: w.rng.Intn(8) == 0}, step); err != nil {
 				w.add("harness.publish", err.Error())
 				return
+			}
+			if q == 0 {
+				// no acknowledgement tells when the broker has handled a QoS 0 PUBLISH: a PINGREQ behind it does
+				// (otherwise its copies could reach a subscriber after that subscriber's own barrier)
+				_ = c.cur.Ping(step)
 			}
 			w.obs["publishes"]++
 		default:
@@ -501,6 +529,12 @@ func (w *world) comparePackets(who string, ps server.PacketStats, t counts, kill
 		if got == want || (killed && strings.HasSuffix(field, "Sent") && got >= want) {
 			return
 		}
+		// an acknowledgement the scripted client wrote (its reader answers PUBLISH / PUBREL by itself) just before the
+		// broker closed that connection may never have been read by the broker: for killed connections what the
+		// clients wrote is an upper bound for these packet types
+		if killed && strings.HasSuffix(field, "Received") && got <= want && (typ == "PUBACK" || typ == "PUBREC" || typ == "PUBCOMP" || typ == "TOTAL") {
+			return
+		}
 		w.add(fmt.Sprintf("packets.%s:%s", field, typ), fmt.Sprintf("%s: %s[%s] = %d, exchanged on the wire: %d", who, field, typ, got, want))
 	}
 	for _, n := range typeNames {
@@ -781,6 +815,28 @@ func runScenario(sc *Scenario) (fs []finding, obs map[string]int, rerr error) {
 	chk("SessionTerminated.Expired", cs.SessionTerminated.Expired, w.termExpired)
 	chk("ActiveCurrent", cs.ActiveCurrent, online)
 	chk("InactiveCurrent", cs.InactiveCurrent, offline)
+	if len(w.fs) > 0 {
+		// witness: the tail of every connection's packet log
+		var diag []string
+		for _, c := range w.cs {
+			for ci, conn := range c.conns {
+				lg := conn.Log()
+				if len(lg) > 14 {
+					lg = lg[len(lg)-14:]
+				}
+				line := fmt.Sprintf("%s conn %d (killed=%v epoch0=%d):", c.id, ci, c.killed, c.epoch0)
+				for _, r := range lg {
+					if r.P != nil {
+						line += fmt.Sprintf(" %s:%s(%d)", r.Dir, mqttx.TypeName(r.P.Type), r.P.PacketID)
+					}
+				}
+				diag = append(diag, line)
+			}
+		}
+		for i := range w.fs {
+			w.fs[i].Diag = diag
+		}
+	}
 	for _, c := range w.cs {
 		for _, conn := range c.conns {
 			conn.Close()
@@ -850,8 +906,31 @@ func Run(r *monitor.Run) {
 			r.Inconclusive(fmt.Sprintf("scenario %d: %v", i, err))
 			return
 		}
+		if len(fs) > 0 {
+			// A scenario is a deterministic script; what the clients saw of the last packets around the end of a
+			// connection is not (TCP may lose what is written into a closing connection). A counter that disagrees
+			// with the wire log is reported if the same disagreement shows again when the scenario is executed
+			// again (twice); gauges that wrapped are reported at once.
+			again := map[string]bool{}
+			for k := 0; k < 2; k++ {
+				if fs2, _, err2 := runScenario(sc); err2 == nil {
+					for _, f := range fs2 {
+						again[f.Sig] = true
+					}
+				}
+			}
+			var keep []finding
+			for _, f := range fs {
+				if again[f.Sig] || strings.HasPrefix(f.Sig, "gauge.wrapped") {
+					keep = append(keep, f)
+				} else {
+					r.Count("disagreements_that_did_not_recur", 1)
+				}
+			}
+			fs = keep
+		}
 		for _, f := range fs {
-			r.Violation(f.Sig, f.What, map[string]any{"scenario": sc, "index": i})
+			r.Violation(f.Sig, f.What, map[string]any{"scenario": sc, "index": i, "diag": f.Diag})
 		}
 		for k, v := range obs {
 			r.Count(k, int64(v))
